@@ -109,7 +109,10 @@ func (t *HtmlScanner) initState() error {
 		if err := t.NextRune(); err != nil {
 			return err
 		}
-		if t.ch == '<' { // 如果是 < 说明是 tag
+		if _, raw := t.isInRawTextTag(); raw {
+			// 文本标签(script/style/...)的内容即使以 < 开头也是文本 直到遇到它的闭合标签
+			t.state = stateText
+		} else if t.ch == '<' { // 如果是 < 说明是 tag
 			t.state = stateTagStart
 		} else {
 			t.state = stateText
@@ -178,6 +181,16 @@ func (t *HtmlScanner) readText() (tok *Token, err error) {
 						// tagBuf =</script>
 						// after Truncate: textBuf=a
 						textBuf.Truncate(textBuf.Len() + 1 - tagBuf.Len())
+						if textBuf.Len() == 0 { // <script></script>: 没有文本内容 直接返回闭合标签
+							t.state = stateInit
+							return t.addToken(&Token{
+								Kind:  TokenKindTag,
+								Value: tagBuf.String(),
+								Start: end,
+								End:   t.pos,
+								Tag:   newCloseTag(tagName),
+							}), nil
+						}
 						textToken := t.addToken(&Token{
 							Kind:  TokenKindText,
 							Value: textBuf.String(),
@@ -189,12 +202,8 @@ func (t *HtmlScanner) readText() (tok *Token, err error) {
 							Value: tagBuf.String(),
 							Start: end,
 							End:   t.pos,
-							Tag: &Tag{
-								Name: "/" + tagName,
-								// 结束标签无属性
-							},
+							Tag:   newCloseTag(tagName),
 						}
-						tagToken.Tag.AttrMap() // 同上 提前构造
 						t.nextToken = tagToken
 						t.state = stateInit
 						return textToken, nil
@@ -218,6 +227,13 @@ func (t *HtmlScanner) readText() (tok *Token, err error) {
 		// 写入文本
 		textBuf.WriteRune(ch)
 	}
+}
+
+// newCloseTag 文本标签的闭合标签(无属性)
+func newCloseTag(tagName string) *Tag {
+	tag := &Tag{Name: "/" + tagName}
+	tag.AttrMap() // 提前构造查找表: Tag 之后会被并发执行的模板共享只读
+	return tag
 }
 
 // isInRawTextTag 正在读取文本 tag 里的文本
